@@ -166,6 +166,23 @@ def dt_of(t):
     return ['struct', S(t.__name__), [[S(k), dt_of(v)] for k, v in t.__bitstruct_fields__.items()]]
   return ['vec', t.nbits]
 
+def pstr(v):
+  """str image of a parameter value as the (repaired) naming scheme takes it: str(v), except that a value which is or contains a set
+  (inside tuples / lists / dict values) is rendered with the elements of every set sorted (independent restatement of
+  get_component_full_name.get_string after fix R12 set-param-hashseed / R13 nested-set-param-hashseed)"""
+  def has_set(o):
+    if isinstance(o, (set, frozenset)): return True
+    if isinstance(o, (list, tuple)): return any(has_set(x) for x in o)
+    if isinstance(o, dict): return any(has_set(x) for x in o.values())
+    return False
+  def canon(o):
+    if isinstance(o, (set, frozenset)): return '{' + ', '.join(sorted(canon(x) for x in o)) + '}'
+    if isinstance(o, tuple): return '(' + ', '.join(canon(x) for x in o) + (',)' if len(o) == 1 else ')')
+    if isinstance(o, list): return '[' + ', '.join(canon(x) for x in o) + ']'
+    if isinstance(o, dict): return '{' + ', '.join(f'{canon(k)}: {canon(x)}' for k, x in o.items()) + '}'
+    return repr(o)
+  return canon(v) if has_set(v) else str(v)
+
 def pval_of(v):
   if isinstance(v, bool): return ['bool', v]
   if isinstance(v, Bits): return ['bits', v.nbits, int(v)]
@@ -175,7 +192,7 @@ def pval_of(v):
   if isinstance(v, type):
     if is_bitstruct_class(v): return dt_of(v)
     return ['type', S(v.__name__)]
-  return ['other', S(str(v))]
+  return ['other', S(pstr(v))]
 
 def params_of(m):
   """the EFFECTIVE construct arguments of an instance, derived independently of rt.Component._gen_parameters:
@@ -211,7 +228,7 @@ def identity(m):
   apart by their bodies, and the translator refusing such a design is the accepted behaviour."""
   def image(v):
     if isinstance(v, type): return py_struct_name(v) if is_bitstruct_class(v) else v.__name__
-    return str(v)
+    return pstr(v)
   EK = c13_worker.backend_pass('sv').explicit_module_name
   if m.has_metadata(EK) and m.get_metadata(EK): return ('explicit_module_name', m.get_metadata(EK))   # the user chose the name
   return (type(m).__name__, tuple((k, image(v)) for k, v in params_of(m)))
@@ -360,7 +377,7 @@ def refused_design(ck, d, backend, case, exc):
                  {'error': f'{type(exc).__name__}: {msg.strip()[:400]}',
                   'module_name': mm.group(5) if mm else None,
                   'colliding_instances': [{'instance': repr(x), 'class': f'{type(x).__module__}.{type(x).__qualname__}',
-                                           'effective_parameters': [[k, type(v).__name__, str(v)] for k, v in params_of(x)]}
+                                           'effective_parameters': [[k, type(v).__name__, pstr(v)] for k, v in params_of(x)]}
                                           for x in pair if x is not None],
                   'oracle': 'no two instances of this design have the same class name and the same parameter images, so no two '
                             'of them may share a module name: components that differ in class or parameters never collide'})
@@ -457,7 +474,7 @@ def check_design(ck, d, texts_by_run):
     for m in comps:
       ps = params_of(m)
       ck.model_reqs.append((lambda h, m=m, ps=ps: leanio.line('names', 'uniq', h, S(type(m).__name__), [[S(k), pval_of(v)] for k, v in ps]),
-                            ('uniq', dict(case, instance=repr(m), params=[(k, str(v)) for k, v in ps]), real_name[m],
+                            ('uniq', dict(case, instance=repr(m), params=[(k, pstr(v)) for k, v in ps]), real_name[m],
                              tr.structural.component_full_name[m])))
     # ---- aliasing (direct oracle): same emitted name => identical standalone translation
     by_name = {}
@@ -530,7 +547,7 @@ def check_design(ck, d, texts_by_run):
             n_bad += 1
             ck.violation('instance-gets-other-hardware', {'finding': finding or 'unlabelled'}, case,
                          dict(problem, instance=repr(c), instantiated_as=mod_,
-                              effective_parameters=[[k2, type(v).__name__, str(v)] for k2, v in params_of(c)],
+                              effective_parameters=[[k2, type(v).__name__, pstr(v)] for k2, v in params_of(c)],
                               oracle='the module instantiated for an instance must be the translation of that very instance'))
     for n, m in first_of.items():
       if n not in scanned or not walk: continue
@@ -837,7 +854,7 @@ def names_stream(ck, n_cases):
         real_full, real_uniq = get_component_full_name(stub), get_component_unique_name(stub)
       except Exception as e:
         raise InfraError(f'get_component_unique_name raised {type(e).__name__}: {e} on {cls} {ps}')
-      case = {'cls': cls, 'params': [[k, type(v).__name__, str(v)] for k, v in ps], 'flavour': flavour}
+      case = {'cls': cls, 'params': [[k, type(v).__name__, pstr(v)] for k, v in ps], 'flavour': flavour}
       builders.append(lambda h, cls=cls, ps=ps: leanio.line('names', 'uniq', h, S(cls), [[S(k), pval_of(v)] for k, v in ps]))
       meta.append(('uniq', case, real_uniq, real_full))
       g.append((case, ps, real_uniq, real_full))
@@ -882,7 +899,7 @@ def im(v):
       from pymtl3.passes.rtlir.rtype.RTLIRDataType import get_rtlir_dtype
       return get_rtlir_dtype(v()).get_name()
     return v.__name__
-  return str(v)
+  return pstr(v)
 
 def identifier_stream(ck, n):
   """idShape / legalId against the regular expression and pymtl3's reserved set; reserved list against the real one"""
